@@ -201,6 +201,7 @@ class Shadow:
                 r, conv = val(pl[0]), pl[1]
                 if not _is_real_number(r) or not 0 <= r <= 1:
                     raise ShadowInvalid(f"reflectivity {r!r}")
+                r = float(r)              # the documented matrix of the *value*, whatever numeric type carries it
                 th = math.acos(math.sqrt(r))
                 c, s_ = math.cos(th), math.sin(th)
                 m = (np.array([[c, 1j * s_], [1j * s_, c]]) if conv == "Rx"
@@ -209,11 +210,14 @@ class Shadow:
                 phi = val(pl[0])
                 if not _is_number(phi):
                     raise ShadowInvalid(f"phase {phi!r}")
+                if _is_real_number(phi):
+                    phi = float(phi)
                 m = np.array([[np.exp(1j * phi)]])
             elif kind == "loss":
                 l = val(pl[0])
                 if not _is_real_number(l) or not 0 <= l <= 1:
                     raise ShadowInvalid(f"loss {l!r}")
+                l = float(l)
                 tt, s_ = math.sqrt(1 - l), math.sqrt(l)
                 m = np.array([[tt, -s_], [s_, tt]], dtype=complex)
             elif kind == "perm":
